@@ -340,7 +340,7 @@ func (q *qgen) metric() string {
 	if q.g.on("hist") && q.r.P(0.04) {
 		return "h_bucket"
 	}
-	if q.g.on("nameless-selector") && q.r.P(0.02) {
+	if q.g.on("nameless-selector") && q.r.P(0.05) {
 		return ""
 	}
 	return Pick(q.r, metricNames)
